@@ -51,3 +51,96 @@ Proof.
   rewrite E, Z.mul_1_r. rewrite fits_in_rep in Hc. rewrite fits64_in64.
   rewrite (in_rep_in64 _ _ Hw1 Hc). reflexivity.
 Qed.
+
+(** * + - / % : the representability hypotheses of the main theorems are tight.  Once both counts
+   convert to the common type (both_ok), the model has undefined behaviour exactly when the exact
+   result does not fit the common representation (or the divisor is zero). *)
+From Tetl Require Import C12.ProofsCommon.
+
+Lemma ck_rep_case w x : ck_rep w x = if in_rep w x then Val x else Ub SignedOverflow.
+Proof. reflexivity. Qed.
+
+(* a quotient of two values in [-M-1, M] leaves that range only as (-M-1) / (-1) *)
+Lemma quot_leaves_range M x y : 0 <= M -> - M - 1 <= x <= M -> - M - 1 <= y <= M -> y <> 0 ->
+  ~ (- M - 1 <= Z.quot x y <= M) -> x = - M - 1 /\ y = -1.
+Proof.
+  intros HM Hx Hy Hnz Hq.
+  assert (Hay : 0 < Z.abs y) by lia.
+  assert (Ea : Z.abs (Z.quot x y) = Z.quot (Z.abs x) (Z.abs y)) by (symmetry; apply Z.quot_abs; exact Hnz).
+  assert (Hle : Z.quot (Z.abs x) (Z.abs y) <= Z.abs x).
+  { apply Z.quot_le_upper_bound; [exact Hay|]. 
+    replace (Z.abs x) with (1 * Z.abs x) at 1 by ring. apply Z.mul_le_mono_nonneg_r; lia. }
+  assert (Hq2 : Z.quot x y = M + 1) by lia.
+  assert (Hx2 : x = - M - 1) by lia.
+  split; [exact Hx2|].
+  destruct (Z.eq_dec (Z.abs y) 1) as [E1|N1].
+  - destruct (Z.eq_dec y 1) as [Ey|Ney]; [|lia].
+    subst y. rewrite Z.quot_1_r in Hq2. lia.
+  - exfalso. assert (Hlt : Z.quot (Z.abs x) (Z.abs y) < Z.abs x) by (apply Z.quot_lt; lia). lia.
+Qed.
+
+Lemma quot_leaves_rep w x y : rep_ok w = true -> in_rep w x = true -> in_rep w y = true -> y <> 0 ->
+  in_rep w (Z.quot x y) = false -> x = min_rep w /\ y = -1.
+Proof.
+  unfold rep_ok, in_rep, min_rep. intros Hw Hx Hy Hnz Hq. destruct (w =? 32) eqn:E.
+  - unfold in32, min32, max32 in *. apply (quot_leaves_range 2147483647); lia.
+  - unfold in64, min64, max64 in *. apply (quot_leaves_range 9223372036854775807); lia.
+Qed.
+
+Section Tight.
+  Variables w1 n1 d1 w2 n2 d2 : Z.
+  Hypothesis Hw1 : rep_ok w1 = true.
+  Hypothesis Hw2 : rep_ok w2 = true.
+  Hypothesis Hp1 : period_ok n1 d1 = true.
+  Hypothesis Hp2 : period_ok n2 d2 = true.
+  Variables c1 c2 : Z.
+  Hypothesis Hb : both_ok w1 n1 d1 w2 n2 d2 c1 c2 = true.
+  Let wc := Z.max w1 w2.
+
+  Lemma plus_m_tight :
+    plus_m (Dur w1 n1 d1) (Dur w2 n2 d2) c1 c2
+    = if fits wc (plus_spec n1 d1 n2 d2 c1 c2) then Val (plus_spec n1 d1 n2 d2 c1 c2) else Ub SignedOverflow.
+  Proof.
+    unfold plus_m. cbv zeta. rewrite to_common_m_spec by assumption. cbn [bind rw].
+    unfold plus_spec. cbv zeta. rewrite in_common_l, in_common_r. rewrite fits_in_rep. apply ck_rep_case.
+  Qed.
+
+  Lemma minus_m_tight :
+    minus_m (Dur w1 n1 d1) (Dur w2 n2 d2) c1 c2
+    = if fits wc (minus_spec n1 d1 n2 d2 c1 c2) then Val (minus_spec n1 d1 n2 d2 c1 c2) else Ub SignedOverflow.
+  Proof.
+    unfold minus_m. cbv zeta. rewrite to_common_m_spec by assumption. cbn [bind rw].
+    unfold minus_spec. cbv zeta. rewrite in_common_l, in_common_r. rewrite fits_in_rep. apply ck_rep_case.
+  Qed.
+
+  Lemma div_mod_m_tight :
+    (c2 = 0 -> div_m (Dur w1 n1 d1) (Dur w2 n2 d2) c1 c2 = Ub DivByZero
+               /\ mod_m (Dur w1 n1 d1) (Dur w2 n2 d2) c1 c2 = Ub DivByZero)
+    /\ (c2 <> 0 -> fits wc (div_spec n1 d1 n2 d2 c1 c2) = false ->
+          div_m (Dur w1 n1 d1) (Dur w2 n2 d2) c1 c2 = Ub SignedOverflow
+          /\ mod_m (Dur w1 n1 d1) (Dur w2 n2 d2) c1 c2 = Ub SignedOverflow).
+  Proof.
+    destruct (tk_facts n1 d1 n2 d2 Hp1 Hp2) as (_ & _ & _ & _ & _ & _ & _ & _ & _ & Ht2).
+    split.
+    - intros E. subst c2. unfold div_m, mod_m. cbv zeta. rewrite to_common_m_spec by assumption.
+      cbn [bind rw]. unfold div_rep, rem_rep. rewrite Z.mul_0_l. cbn [Z.eqb]. split; reflexivity.
+    - intros Hnz Hf.
+      destruct (scaled_values n1 d1 n2 d2 c1 c2 Hp1 Hp2) as (K & l & HK & Hl & Ex & Ey).
+      assert (Hy : c2 * tk2 n1 d1 n2 d2 <> 0).
+      { intros E. apply Z.mul_eq_0 in E. destruct E as [E|E]; [contradiction|]. rewrite E in Ht2. inversion Ht2. }
+      assert (Eq : Z.quot (c1 * tk1 n1 d1 n2 d2) (c2 * tk2 n1 d1 n2 d2) = div_spec n1 d1 n2 d2 c1 c2).
+      { unfold div_spec. exact (scaled_quot _ _ _ _ K l HK Hl Ex Ey Hy). }
+      (* the quotient of two values of the common representation leaves it only for min / -1 *)
+      pose proof (proj1 (both_ok_iff _ _ _ _ _ _ _ _) Hb) as (_ & _ & _ & Hx & Hyr).
+      fold wc in Hx, Hyr. rewrite fits_in_rep in Hf. rewrite <- Eq in Hf.
+      set (x := c1 * tk1 n1 d1 n2 d2) in *. set (y := c2 * tk2 n1 d1 n2 d2) in *.
+      assert (Hm : x = min_rep wc /\ y = -1).
+      { pose proof (rep_ok_max _ _ Hw1 Hw2) as Hwc. fold wc in Hwc.
+        apply quot_leaves_rep; assumption. }
+      destruct Hm as [Emin Ey1].
+      unfold div_m, mod_m. cbv zeta. rewrite to_common_m_spec by assumption. cbn [bind rw].
+      fold x y wc. unfold div_rep, rem_rep.
+      destruct (y =? 0) eqn:E0; [apply Z.eqb_eq in E0; contradiction|].
+      rewrite Emin, Ey1, Z.eqb_refl. cbn [Z.eqb andb Pos.eqb]. split; reflexivity.
+  Qed.
+End Tight.
